@@ -4,3 +4,4 @@ pub mod bookgen;
 pub mod ledger;
 pub mod alias;
 pub mod pricegen;
+pub mod splitter;
